@@ -326,6 +326,21 @@ pub fn check(tier: Tier) -> i32 {
         rep.acc.merge(acc);
         rep.scope(&format!("trees <= {s} nodes ({}) x <= {d} deviations", trees.len()), n, done == trees.len() as u64);
     }
+    // deeper flow nesting over a small leaf alphabet
+    let (fmin, fmax, fd) = if tier == Tier::Quick { (7usize, 8usize, 1usize) } else { (6, 9, 2) };
+    let ftrees = all_flow_trees(fmin, fmax);
+    let (acc, done) = par_blocks(ftrees.len() as u64, &budget, |b, acc| {
+        let t = &ftrees[b as usize];
+        let d = if t.size() >= 9 { 1 } else { fd };
+        let (c, tr) = explore(d, &mut |ch: &mut Ch| eval_rendering(std::slice::from_ref(t), ch, acc));
+        acc.count("choice_vectors", c);
+        acc.count("choice_edges", tr);
+    });
+    let n = acc.evals;
+    states += acc.counters.get("choice_vectors").copied().unwrap_or(0);
+    transitions += acc.counters.get("choice_edges").copied().unwrap_or(0);
+    rep.acc.merge(acc);
+    rep.scope(&format!("flow-only trees of {fmin}..{fmax} nodes ({}) x <= {fd} deviations", ftrees.len()), n, done == ftrees.len() as u64);
     match load_suite() {
         Err(e) => rep.acc.machinery_errors.push(e),
         Ok(cases) => {
